@@ -43,31 +43,42 @@ from twisted.protocols.tls import (  # noqa: E402
 )
 from twisted.test.iosim import FakeTransport  # noqa: E402
 
-HEADLINE = "TwistedProps.C17.app_bytes_intact_partial (+ sender_accounting, receiver_accounting, connectionLost_exactly_once, no_data_after_connectionLost)"
+HEADLINE = ("TwistedProps.C17.app_bytes_intact (+ engine_pair_contract, all_decoded_at_close_notify, app_bytes_exact_when_drained, "
+            "app_bytes_exact_at_clean_close, app_bytes_exact_after_clean_close, both_transports_closed_at_quiescence_partial, "
+            "sender_accounting, receiver_accounting, connectionLost_exactly_once, no_data_after_connectionLost)")
 RULE = ("random schedules of W/L/D/T/F/E steps (see module docstring) for k=2..6 handshake flights, engine record limit "
         "1..255, buffering or plain protocol on either side, optional write from handshakeCompleted; writes of 0..70000 "
         "bytes around the 2**14 / 64000 / record limits; segment sizes 1..all; always followed by a fair drain; "
         "distinct = (k, protocol kinds, who closed in which handshake phase, abort?, sizes class, final state)")
 ASSUMES = [
-    "pyOpenSSL/OpenSSL are replaced by the FakeEngine contract (harness/shims/OpenSSL): k>=2 strictly alternating handshake "
-    "flights, length-framed records of <=255 payload bytes, close_notify; no renegotiation, no alerts other than close_notify",
+    "pyOpenSSL/OpenSSL are replaced by the FakeEngine (harness/shims/OpenSSL): k>=1 strictly alternating handshake flights, "
+    "length-framed records of <=255 payload bytes (record limit 1..255), close_notify; no renegotiation, no alerts other than "
+    "close_notify. The engine-pair contract recvPlain(Y) <+: sentPlain(X) is no longer assumed: it is PROVED for this engine "
+    "pair and the fake wire (engine_pair_contract)",
     "the underlying transports deliver bytes in order without loss or duplication and call connectionLost once (iosim.FakeTransport "
-    "+ the scheduler of this module)",
+    "+ the scheduler of this module; the Lean World.step is its transcription)",
     "applications do not call transport methods re-entrantly from dataReceived/connectionLost (only from handshakeCompleted)",
+    "progress (after loseConnection every fair run tells some transport to close and, if the receiver does not close or abort first, "
+    "reaches the clean-close point) is NOT proved; it is checked on the real code by the oracle (lost-bytes, not-closed, not-quiescent)",
     "producers (registerProducer/unregisterProducer) are exercised on the real code by the oracle only; they are not in the Lean model",
 ]
 TRUSTED = ["harness/shims/OpenSSL (FakeEngine stand-in for pyOpenSSL; the Lean `Eng` is its transcription)",
            "twisted.test.iosim.FakeTransport as the underlying transport"]
 MANIFEST = {
-    "text": "Lean model of TLSMemoryBIOProtocol/BufferingTLSTransport/_AggregateSmallWrites over a fake TLS engine "
-            "(TwistedModel/Transport/Tls.lean); theorems for every schedule of writes / segmentations / deliveries / ticks / "
-            "loseConnection by either side: what an application has received is always a prefix of what the peer wrote before its "
-            "loseConnection (in order, intact), connectionLost is delivered exactly when the underlying transport has gone and at "
-            "most once, nothing is delivered after it; model run against the real twisted.protocols.tls on every run; completeness "
-            "and termination at quiescence are checked by the oracle on the real code (partial: not proved).",
-    "note": "PARTIAL: pyOpenSSL is replaced by a stand-in engine; liveness (everything delivered, both transports closed at quiescence) "
-            "is oracle-checked, not proved; producers are oracle-only",
-    "technique": "Lean 4 proof (channel invariant by induction over schedules) + differential tie + oracle",
+    "text": "Lean model of TLSMemoryBIOProtocol/BufferingTLSTransport/_AggregateSmallWrites over a fake TLS engine pair and a fake "
+            "wire (TwistedModel/Transport/Tls.lean); theorems for every schedule of writes / segmentations / deliveries / ticks / "
+            "loseConnection by either side, with no hypothesis on the run: what an application has received is always a prefix of "
+            "what the peer wrote before its loseConnection (in order, intact) — the engine-pair contract is now proved (in-flight bytes "
+            "= encoding of well-formed records, cut only at the tail); it is EXACTLY that in every drained state, at the clean-close "
+            "point (peer closed cleanly, its close_notify read) and in every later state incl. every quiescent final state; "
+            "connectionLost is delivered exactly when the underlying transport has gone and at most once, nothing is delivered after "
+            "it; in every quiescent world where some transport was told to close both transports are closed with one connectionLost "
+            "each; model run against the real twisted.protocols.tls on every run; progress towards the clean-close point / towards a "
+            "transport being told to close is checked by the oracle on the real code (partial: not proved).",
+    "note": "PARTIAL: pyOpenSSL is replaced by a stand-in engine; progress of the handshake/close_notify dance (a loseConnection "
+            "eventually closes a transport; the clean-close point is reached) is oracle-checked, not proved; producers are oracle-only",
+    "technique": "Lean 4 proof (sender/receiver accounting + channel invariant over records in flight, by induction over schedules; "
+                 "monotonicity; quiescence as step fixpoint) + differential tie + oracle",
     "design_ref": "DESIGN.md §7.3 C17",
 }
 
